@@ -9,11 +9,11 @@ import (
 )
 
 func init() {
-	for _, f := range []func() scen.Spec{scen.Core, scen.Basket, scen.Market, scen.BridgeSpec, scen.Large, scen.Expiry, scen.GovPool, scen.BasketLarge} {
+	for _, f := range []func() scen.Spec{scen.Core, scen.Basket, scen.Market, scen.BridgeSpec, scen.Large, scen.Expiry, scen.GovPool, scen.BasketLarge, scen.Mixed} {
 		regSpec(f)
 	}
 	shared := func() []scen.Spec {
-		return []scen.Spec{scen.Core(), scen.Basket(), scen.Market(), scen.BridgeSpec()}
+		return []scen.Spec{scen.Core(), scen.Basket(), scen.Market(), scen.BridgeSpec(), scen.Mixed()}
 	}
 	Registry["C01"] = func(tier string) int {
 		return engineA("C01", tier, append(shared(), scen.Large()),
@@ -38,17 +38,17 @@ func init() {
 			budget(tier, 100*time.Second, 15*time.Minute))
 	}
 	Registry["C05"] = func(tier string) int {
-		return engineA("C05", tier, []scen.Spec{scen.Basket(), scen.BasketLarge()},
+		return engineA("C05", tier, []scen.Spec{scen.Basket(), scen.BasketLarge(), scen.Mixed()},
 			func() []explore.Monitor { return []explore.Monitor{&mon.C05{}} },
 			budget(tier, 80*time.Second, 12*time.Minute))
 	}
 	Registry["C06"] = func(tier string) int {
-		return engineA("C06", tier, []scen.Spec{scen.Market(), scen.Expiry()},
+		return engineA("C06", tier, []scen.Spec{scen.Market(), scen.Expiry(), scen.Mixed()},
 			func() []explore.Monitor { return []explore.Monitor{&mon.C06{}} },
 			budget(tier, 80*time.Second, 12*time.Minute))
 	}
 	Registry["C12"] = func(tier string) int {
-		return engineA("C12", tier, []scen.Spec{scen.Expiry(), scen.Market()},
+		return engineA("C12", tier, []scen.Spec{scen.Expiry(), scen.Market(), scen.Mixed()},
 			func() []explore.Monitor { return []explore.Monitor{&mon.C12{}} },
 			budget(tier, 80*time.Second, 12*time.Minute))
 	}
